@@ -5,11 +5,35 @@ package lnwallet
 // every action, compared with the live object; (ii) real restarts (continue
 // with the reloaded objects) at PRNG points, including between
 // ReceiveNewCommitment and RevokeCurrentCommitment.
+//
+// Two units run the same logic: `crashpoints` on the bbolt kvdb backend and
+// `crashpoints_sqlite` (TestVerifC02Sqlite, build tag kvdb_sqlite) on the
+// sqlite kvdb backend (kvdb/sqlbase + kvdb/sqlite): there the forks are
+// file-level crash images (database file + WAL, see e1_sqlite_test.go) and the
+// restarting party of a real restart closes and reopens its backend.
 
 import (
 	"fmt"
 	"testing"
+
+	"github.com/lightningnetwork/lnd/kvdb"
 )
+
+func verifC02Backend() string {
+	if verifUseSqlite {
+		return "sqlite"
+	}
+	return "bbolt"
+}
+
+// verifC02MarkRestart: party i's process restarts at the next reconnect. On
+// the sqlite backend this closes and reopens its database: alternately an
+// orderly shutdown and a kill (file image + WAL recovery).
+func (e *verifE1) verifC02MarkRestart(i, salt int) {
+	if verifUseSqlite {
+		e.parties[i].reopenKind = 1 + (e.nRestarts+salt)%2
+	}
+}
 
 func verifC02Case(vc *verifCtx, i int, sysCrashAt int, schedSeedIdx int) {
 	r := vc.Rng(schedSeedIdx)
@@ -21,7 +45,8 @@ func verifC02Case(vc *verifCtx, i int, sysCrashAt int, schedSeedIdx int) {
 	// (r) is identical between a run and its systematic crash replays.
 	fr := r.Fork("faults")
 	vc.Case(i, map[string]any{"params": p, "actions": nActions, "forkEvery": forkEvery,
-		"restartPct": restartPct, "sysCrashAt": sysCrashAt, "sched": schedSeedIdx})
+		"restartPct": restartPct, "sysCrashAt": sysCrashAt, "sched": schedSeedIdx,
+		"backend": verifC02Backend()})
 	e, err := verifE1New(vc, r, p)
 	if err != nil {
 		vc.Count("setup_skipped", 1)
@@ -71,6 +96,7 @@ func verifC02Case(vc *verifCtx, i int, sysCrashAt int, schedSeedIdx int) {
 						if e.actDeliver(from, true) {
 							forks(0)
 							e.nRestarts++
+							e.verifC02MarkRestart(1-from, i)
 							e.reconnect(fmt.Sprintf("restart %s (mid-handler)", e.parties[1-from].Name), false)
 							done = true
 						}
@@ -79,6 +105,7 @@ func verifC02Case(vc *verifCtx, i int, sysCrashAt int, schedSeedIdx int) {
 			}
 			if !done && !e.ended {
 				e.nRestarts++
+				e.verifC02MarkRestart(who, i)
 				e.reconnect(fmt.Sprintf("restart %s", e.parties[who].Name), false)
 			}
 			check("restart")
@@ -108,11 +135,12 @@ func verifC02Case(vc *verifCtx, i int, sysCrashAt int, schedSeedIdx int) {
 	if e.constraintTm {
 		vc.Count("constraint_terminated", 1)
 	}
+	vc.Count("backend_"+verifC02Backend()+"_cases", 1)
 	vc.Count("restarts", int64(e.nRestarts))
 	vc.Count("mid_handler_crashes", int64(e.nMidCrash))
 	if e.everLocked > 0 && e.nRestarts > 0 && !e.constraintTm {
 		vc.Count("nontrivial", 1)
-		vc.Sig(e.signature())
+		vc.Sig(e.signature() + "|be=" + verifC02Backend())
 	}
 	if i%40 == 0 {
 		tr := e.trace
@@ -126,10 +154,25 @@ func verifC02Case(vc *verifCtx, i int, sysCrashAt int, schedSeedIdx int) {
 }
 
 func TestVerifC02(t *testing.T) {
-	vc := verifStart(t, "C02", "crashpoints")
+	verifC02Run(t, "crashpoints", 500, 4000, 5, 60)
+}
+
+// TestVerifC02Sqlite: the same cases on the sqlite kvdb backend (smaller
+// volume: a sqlite kvdb transaction costs several times a bbolt one).
+func TestVerifC02Sqlite(t *testing.T) {
+	if !kvdb.SqliteBackend || verifOpenSqlite == nil {
+		t.Fatalf("crashpoints_sqlite needs a kvdb_sqlite build with e1_sqlite_test.go")
+	}
+	verifUseSqlite = true
+	defer func() { verifUseSqlite = false }()
+	verifC02Run(t, "crashpoints_sqlite", 110, 1600, 1, 20)
+}
+
+func verifC02Run(t *testing.T, unit string, nQuick, nThorough, sysQuick, sysThorough int) {
+	vc := verifStart(t, "C02", unit)
 	defer vc.Finish()
 	verifE1SelfCheck(t)
-	total := vc.N(500, 4000)
+	total := vc.N(nQuick, nThorough)
 	for i := 0; i < total; i++ {
 		if !vc.Mine(i) {
 			continue
@@ -137,7 +180,7 @@ func TestVerifC02(t *testing.T) {
 		verifC02Case(vc, i, -1, i)
 	}
 	// systematic: replay the same schedule once per crash index (O(L^2)).
-	nSys := vc.N(5, 60)
+	nSys := vc.N(sysQuick, sysThorough)
 	base := 1 << 20
 	idx := base
 	for s := 0; s < nSys; s++ {
